@@ -188,6 +188,9 @@ void DOMElementNSImpl::release()
 
 DOMNode* DOMElementNSImpl::rename(const XMLCh* namespaceURI, const XMLCh* name)
 {
+    if (!name || !((DOMDocumentImpl *)fParent.fOwnerDocument)->isXMLName(name))
+        throw DOMException(DOMException::INVALID_CHARACTER_ERR, 0, GetDOMNodeMemoryManager);
+
     setName(namespaceURI, name);
     fAttributes->reconcileDefaultAttributes(getDefaultAttributes());
     // and fire user data NODE_RENAMED event
